@@ -252,8 +252,11 @@ CHECKS = {
              "an interval of length a_k (so with probability a_k/a0 under a uniform draw) and has a_k>0; every Gillespie step "
              "applies exactly one legal event (effect masked by chemostats, propensity not), keeps the state a non-negative "
              "integer state, advances time by L/a0>0; by induction all recorded states/times of any trajectory; dt=log(1/u)/a0 "
-             "is the inverse CDF of Exp(a0) (Mathlib real analysis); tau-leap Poisson means are propensity*dt in call order, "
-             "mean<=0 draws nothing. Tie: statement lists of all step functions pinned against the modelled snapshot "
+             "is the inverse CDF of Exp(a0) (Mathlib real analysis); the selection intervals partition [0,a0) and their "
+             "lengths sum to a0; tau-leap Poisson means are propensity*dt in call order, mean<=0 draws nothing; the tau-leap "
+             "channel list is the Gillespie list minus zero-propensity wall slots (same propensities, same a0); tau-leap "
+             "Apply_nevt in closed form: x + [not chemostated]*(sum sto*nr - leaving + arriving) for every count vector "
+             "(flagged entries fixed as a corollary). Tie: statement lists of all step functions pinned against the modelled snapshot "
              "(translator group Stoch) + per-step draw-replay correspondence + independent CME oracle on every recorded step.",
         note="Distributions of std::uniform_real_distribution / poisson_distribution / mt19937 are trusted (partial by design); "
              "no statistical test; float edge cases of the selection (margin < 1e-9 a0) skipped and counted.",
@@ -266,12 +269,14 @@ CHECKS = {
              "(generated index formulas), 'none' is the identity, redistribution yields non-negative integers with per-species "
              "total = floor of the real total and support inside the support of the input, Poisson-mode layout (k-th draw has "
              "the k-th positive amount as mean and is stored at that entry; zero stays zero); progress interval for the "
-             "correction loop (termination w.p.1 is partial: no measure theory). Tie: translator group Stoch (statement lists "
-             "of GenerateStochasticDistribution and of the dispatch pinned against the modelled snapshot, switch constant, "
+             "correction loop and, from it, termination of the whole redistribution on every FAIR stream of uniform draws "
+             "(every sub-interval of [0,1) hit infinitely often; such streams exist) - the step 'an i.i.d. uniform stream is "
+             "fair almost surely' is trusted measure theory. Tie: translator group Stoch (alpha-normalised statement "
+             "lists of GenerateStochasticDistribution and of the dispatch pinned against the modelled snapshot, switch constant, "
              "Python accepted modes/default) + draw-replay correspondence on the rebuilt, draw-logging engine + independent "
              "oracle on sample 0 (sandboxed with time-out).",
         note="Lean kernel + {propext, Classical.choice, Quot.sound}; translator; shimmed <random>; distributions of the std "
-             "primitives and mt19937 trusted; termination only as a progress-interval theorem.",
+             "primitives and mt19937 trusted; termination proved on fair streams, almost-sure fairness of i.i.d. draws trusted.",
         technique="Lean 4 proof over a draw-stream model + draw-replay differential correspondence",
         design="§6 C14"),
 }
